@@ -310,6 +310,12 @@ def rein5 (c impl : List String) : Option Verdict := do
   let late := v.agreeOverride == some true
   pure { v with oracle := v.oracle || late, note := if late then "" else v.note }
 
+/-- `reino tf window outage | redialled n t…`: as `rein`, after an outage during which every dial found
+    the link not ready; the oracle of `rein5` (the instants of a fresh start, K-2 lateness aside) -/
+def reino (c impl : List String) : Option Verdict := do
+  let (tf, window, _outage) ← P.run (do let a ← P.int; let b ← P.int; let o ← P.int; pure (a, b, o)) c
+  rein5 [toString tf, toString window] impl
+
 /-- `reinlla tf nd (idx mac)* | nconn lla*`: the interface is re-established `nd - 1` times inside
     one Run (link-state changes); dial `k` finds the interface with index `idx k` and hardware
     address 02:00:00:00:00:`mac k` (`0`: none).  The first RA on every connection must carry the
